@@ -9,9 +9,9 @@
 (*   lq.rows     content of the local queue;  c15.end  the crawl went quiet                             *)
 EXTENDS Integers, Sequences, FiniteSets, TraceLib
 
-VARIABLES l, found, delivered, handed, finished, deleted, lqmode
-vars == <<l, found, delivered, handed, finished, deleted, lqmode>>
-Init == l = 1 /\ found = {} /\ delivered = {} /\ handed = <<>> /\ finished = {} /\ deleted = {} /\ lqmode = FALSE
+VARIABLES l, found, delivered, handed, finished, deleted, lqmode, unparsable
+vars == <<l, found, delivered, handed, finished, deleted, lqmode, unparsable>>
+Init == l = 1 /\ found = {} /\ delivered = {} /\ handed = <<>> /\ finished = {} /\ deleted = {} /\ lqmode = FALSE /\ unparsable = {}
 
 Range(s) == {s[i] : i \in 1..Len(s)}
 Applied(e) == IF HasKey(e, "applied") THEN e.applied ELSE TRUE
@@ -49,7 +49,7 @@ Next ==
             /\ UNCHANGED <<found, delivered, handed, finished, deleted>>
        [] e.ev = "fin.finish" -> finished' = finished \cup {e.id} /\ UNCHANGED <<found, delivered, handed, deleted>>
        [] e.ev \in {"hq.delete", "lq.delete"} ->
-            /\ \A i \in 1..Len(e.ids) : Check(e.ids[i] \in finished, l, "a seed is acknowledged to the queue before it finished id=" \o e.ids[i])
+            /\ \A i \in 1..Len(e.ids) : Check(e.ids[i] \in finished \/ e.ids[i] \in unparsable, l, "a seed is acknowledged to the queue before it finished id=" \o e.ids[i])
             /\ deleted' = IF Applied(e) THEN deleted \cup Range(e.ids) ELSE deleted
             /\ UNCHANGED <<found, delivered, handed, finished>>
        [] e.ev = "lq.rows" ->
@@ -60,8 +60,11 @@ Next ==
             \* (a URL that was already waiting is not queued again: for the local queue the text decides)
             /\ \A t \in found : Check(t \in delivered \/ (lqmode /\ \E d \in delivered : d[1] = t[1]), l, "a discovered outlink never reached the queue u=" \o t[1])
             /\ \A id \in finished : Check(id \in deleted, l, "a finished seed was never acknowledged to the queue id=" \o id)
+            \* everything the queue handed out is finished sooner or later - also rows whose text is not a URL - and acknowledged
+            /\ \A id \in DOMAIN handed : Check(id \in deleted, l, "a row the queue handed out was never acknowledged by its id=" \o id)
             /\ UNCHANGED <<found, delivered, handed, finished, deleted>>
        [] OTHER -> UNCHANGED <<found, delivered, handed, finished, deleted>>
+  /\ unparsable' = IF l <= TraceLen /\ TraceLog[l].ev = "queued" /\ HasKey(TraceLog[l], "unparsable") THEN unparsable \cup {TraceLog[l].id} ELSE unparsable
   /\ lqmode' = (lqmode \/ (l <= TraceLen /\ TraceLog[l].ev = "c15.mode" /\ TraceLog[l].mode = "lq"))
   /\ l' = l + 1
 Spec == Init /\ [][Next]_vars
